@@ -691,6 +691,9 @@ def chars(o):
     return None
 
 
+PIN = True
+
+
 def mk(cs):
     cs = tuple(cs)
     dom = ENG.dom if ENG is not None else None
@@ -698,7 +701,7 @@ def mk(cs):
     for c in cs:
         if type(c) is SC:
             d = dom[c.var]
-            if d & (d - 1) == 0:
+            if PIN and d & (d - 1) == 0:
                 # pinned on this path: concretise
                 cs = tuple(_pin(x, dom) for x in cs)
                 sym = any(type(x) is SC for x in cs)
@@ -715,7 +718,7 @@ def mk(cs):
 
 
 def _pin(c, dom):
-    if type(c) is SC:
+    if PIN and type(c) is SC:
         d = dom[c.var]
         if d & (d - 1) == 0:
             v = d.bit_length() - 1
@@ -728,10 +731,17 @@ def conc(x):
     if isS(x):
         if x.v is None:
             # all chars pinned?
-            r = mk(x.cs)
-            if r.v is None:
-                raise Unsupported("concrete value of symbolic string needed")
-            return r.v
+            dom = ENG.dom
+            out = []
+            for c in x.cs:
+                if type(c) is SC:
+                    d = dom[c.var]
+                    if d & (d - 1):
+                        raise Unsupported("concrete value of symbolic string needed")
+                    v = d.bit_length() - 1
+                    c = v if c.tab is None else c.tab[v]
+                out.append(c)
+            return "".join(map(chr, out))
         return x.v
     return x
 
@@ -1513,6 +1523,11 @@ class Int(metaclass=IntMeta):
             return SI(cs)
         if _isinstance(x, SI):
             return x
+        f = getattr(type(x), "__int__", None)
+        if f is not None and not a and type(x).__module__ != "builtins":
+            r = f(x)
+            if _isinstance(r, (SI, _int)):
+                return r
         return _int(x, *a)
 
 
@@ -1533,7 +1548,8 @@ def rrepr(o):
         if o.v is not None:
             return S(repr(o.v))
         cs = o.cs
-        plain = mk_and([mk_and([cin(c, 32, 126), sb_not(ceq(c, 39)), sb_not(ceq(c, 92))]) for c in cs])
+        plain = mk_and([(mk_and([cin(c, 32, 126), sb_not(ceq(c, 39)), sb_not(ceq(c, 92))]) if (type(c) is SC or c < 128)
+                         else chr(c).isprintable()) for c in cs])
         if plain:
             return mk((39,) + cs + (39,))
         has_sq = bool(mk_or([ceq(c, 39) for c in cs]))
@@ -1551,6 +1567,8 @@ def rrepr(o):
                 out += [92, 114]
             elif cin(c, 32, 126):
                 out.append(c)
+            elif type(c) is not SC and c > 127:
+                out += list(map(ord, repr(chr(c))[1:-1]))
             else:
                 out += [92, 120, cmap(c, HEXHI_T), cmap(c, HEXLO_T)]
         out.append(q)
